@@ -1,10 +1,20 @@
 package sym
 
 import (
+	"go/types"
 	"net"
+	"strings"
 
 	"golang.org/x/tools/go/ssa"
 )
+
+// JSON-file hook. bfe's loaders do os.Open(filename) + json.NewDecoder(file).Decode(&conf) and then run
+// their own checks/conversions in the same function. Reflection-based decoding cannot be interpreted, so a
+// harness passes the file name "verif-json:<Func>"; os.Open accepts exactly such names, and Decode(dst)
+// calls the harness function <Func>(dst interface{}) error (in the harness's package), which fills *dst
+// from a struct the harness built. Natively (replay) the harness writes a real JSON file instead, so the
+// replay goes through the real decoder. Any other file name is unsupported (never a silent zero result).
+const verifJSONPrefix = "verif-json:"
 
 // Intrinsics needed by the routing/configuration harnesses (C10–C14).
 func init() {
@@ -37,5 +47,36 @@ func init() {
 			r[12+i] = a[i]
 		}
 		return r
+	}
+	intrinsics["os.Open"] = func(m *Machine, fn *ssa.Function, a []value) value {
+		name, ok := a[0].(Str).Concrete()
+		if !ok || !strings.HasPrefix(name, verifJSONPrefix) {
+			panic(unsupported{"os.Open of a real file"})
+		}
+		m.ghost["verif-json"] = strings.TrimPrefix(name, verifJSONPrefix)
+		f := new(value)
+		*f = m.zero(fn.Signature.Results().At(0).Type().(*types.Pointer).Elem())
+		return tuple{f, iface{}}
+	}
+	intrinsics["(*os.File).Close"] = func(m *Machine, fn *ssa.Function, a []value) value { return iface{} }
+	intrinsics["github.com/bfenetworks/bfe/bfe_util/json.NewDecoder"] = func(m *Machine, fn *ssa.Function, a []value) value {
+		if _, ok := m.ghost["verif-json"].(string); !ok {
+			panic(unsupported{"json.NewDecoder on a reader that is not a verif-json file"})
+		}
+		return (*value)(nil)
+	}
+	intrinsics["(*github.com/json-iterator/go.Decoder).Decode"] = func(m *Machine, fn *ssa.Function, a []value) value {
+		name, ok := m.ghost["verif-json"].(string)
+		if !ok {
+			panic(unsupported{"jsoniter Decode without a verif-json file"})
+		}
+		root := m.curFrame
+		for root != nil && root.caller != nil {
+			root = root.caller
+		}
+		if root == nil || root.fn.Pkg == nil || root.fn.Pkg.Func(name) == nil {
+			panic(unsupported{"verif-json hook function not found: " + name})
+		}
+		return m.call(root.fn.Pkg.Func(name), []value{a[1]}, nil)
 	}
 }
